@@ -39,6 +39,7 @@ type ProjectRunner struct {
 	statesMutex       sync.Mutex
 	processStates     map[string]*types.ProcessState
 	runProcMutex      sync.Mutex
+	procOpMutex       sync.Mutex // serialises explicit start/restart requests
 	runningProcesses  map[string]*Process
 	doneProcMutex     sync.Mutex
 	doneProcesses     map[string]*Process
@@ -344,6 +345,10 @@ func (p *ProjectRunner) removeRunningProcess(process *Process) {
 }
 
 func (p *ProjectRunner) StartProcess(name string) error {
+	// "is it running?" and the registration of the new instance must not interleave
+	// with another start/restart of the same process (two live instances)
+	p.procOpMutex.Lock()
+	defer p.procOpMutex.Unlock()
 	proc := p.getRunningProcess(name)
 	if proc != nil {
 		log.Error().Msgf("Process %s is already running", name)
@@ -399,6 +404,8 @@ func (p *ProjectRunner) StopProcesses(names []string) (map[string]string, error)
 }
 
 func (p *ProjectRunner) RestartProcess(name string) error {
+	p.procOpMutex.Lock()
+	defer p.procOpMutex.Unlock()
 	log.Debug().Msgf("Restarting %s", name)
 	proc := p.getRunningProcess(name)
 	if proc != nil {
